@@ -138,7 +138,7 @@ class Laws(Job):
 
 
 def jobs(tier):
-    K, N = (3, 3) if tier == "quick" else (4, 4)
+    K, N = (3, 3) if tier == "quick" else (5, 4)
     out = []
     for k in range(1, K + 1):
         for n in range(0, N + 1):
@@ -166,7 +166,7 @@ ASSUMPTIONS = ["numpy.ma environment model validated per path against numpy 1.26
 
 
 def bounds(tier):
-    return {"vectors": "1..3" if tier == "quick" else "1..4", "length": "0..3" if tier == "quick" else "0..4",
+    return {"vectors": "1..3" if tier == "quick" else "1..5", "length": "0..3" if tier == "quick" else "0..4",
             "entries": "free real in [-16,16] (flags, non-flag values, flag-valued floats) with a free mask bit; uint8 0..255"}
 
 
